@@ -1509,6 +1509,16 @@ impl<'a, Octs: Octets + ?Sized> MessageTsig<'a, Octs> {
                     return Err(TsigError::Invalid);
                 }
 
+                // RFC 8945, section 4.2: the only defined content of the
+                // other data is a 48 bit time. The other data is part of
+                // the signed data, too, and we only ever feed nothing or
+                // such a time into the digest, so we have to insist here
+                // as well.
+                let other_len = record.data().other().as_ref().len();
+                if other_len != 0 && other_len != 6 {
+                    return Err(TsigError::Invalid);
+                }
+
                 // We got a valid TSIG, now assert that it's the last record:
                 if section.next().is_some() {
                     return Err(TsigError::Position);
